@@ -594,4 +594,148 @@ theorem readHistory_sim (fs : FS) (cb1 cb2 : Callback) (ha : ∀ k1 k2 p, accept
           | ok drops => simp only; split <;> exact ⟨rfl, hd2⟩
 
 
+/-- byte-wise "less or equal" -/
+def strLe (a b : Str) : Prop := strLt b a = false
+
+theorem strLt_irrefl (a : Str) : strLt a a = false := by
+  induction a with
+  | nil => rfl
+  | cons x xs ih => simp [strLt, ih]
+
+theorem strLt_asymm (a b : Str) (h : strLt a b = true) : strLt b a = false := by
+  induction a generalizing b with
+  | nil => cases b <;> simp [strLt] at h ⊢
+  | cons x xs ih =>
+    cases b with
+    | nil => simp [strLt] at h
+    | cons y ys =>
+      simp only [strLt] at h ⊢
+      by_cases hxy : x < y
+      · have : ¬ y < x := by
+          intro hh; exact absurd (UInt8.lt_trans hxy hh) (UInt8.lt_irrefl x)
+        simp [hxy, this]
+      · by_cases hyx : y < x
+        · simp [hxy, hyx] at h
+        · simp only [hxy, hyx, if_false] at h ⊢
+          exact ih ys h
+
+theorem strLt_trans (a b c : Str) (h1 : strLt a b = true) (h2 : strLt b c = true) : strLt a c = true := by
+  induction a generalizing b c with
+  | nil =>
+    cases b with
+    | nil => simp [strLt] at h1
+    | cons y ys => cases c <;> simp [strLt] at h2 ⊢
+  | cons x xs ih =>
+    cases b with
+    | nil => simp [strLt] at h1
+    | cons y ys =>
+      cases c with
+      | nil => simp [strLt] at h2
+      | cons z zs =>
+        simp only [strLt] at h1 h2 ⊢
+        by_cases hxy : x < y
+        · by_cases hyz : y < z
+          · simp [UInt8.lt_trans hxy hyz]
+          · by_cases hzy : z < y
+            · simp [hyz, hzy] at h2
+            · have : y = z := UInt8.le_antisymm (UInt8.not_lt.mp hzy) (UInt8.not_lt.mp hyz)
+              subst this; simp [hxy]
+        · by_cases hyx : y < x
+          · simp [hxy, hyx] at h1
+          · have hxe : x = y := UInt8.le_antisymm (UInt8.not_lt.mp hyx) (UInt8.not_lt.mp hxy)
+            subst hxe
+            simp only [hxy, if_false] at h1
+            by_cases hxz : x < z
+            · simp [hxz]
+            · by_cases hzx : z < x
+              · simp [hxz, hzx] at h2
+              · simp only [hxz, hzx, if_false] at h2 ⊢
+                exact ih ys zs h1 h2
+
+/-- total: of two different names one is before the other -/
+theorem strLt_total (a b : Str) : strLt a b = true ∨ a = b ∨ strLt b a = true := by
+  induction a generalizing b with
+  | nil => cases b <;> simp [strLt]
+  | cons x xs ih =>
+    cases b with
+    | nil => simp [strLt]
+    | cons y ys =>
+      simp only [strLt]
+      by_cases hxy : x < y
+      · simp [hxy]
+      · by_cases hyx : y < x
+        · simp [hxy, hyx]
+        · have hxe : x = y := UInt8.le_antisymm (UInt8.not_lt.mp hyx) (UInt8.not_lt.mp hxy)
+          subst hxe
+          simp only [hxy, if_false]
+          rcases ih ys with h | h | h
+          · exact Or.inl h
+          · exact Or.inr (Or.inl (by rw [h]))
+          · exact Or.inr (Or.inr h)
+
+theorem strLe_of_not_lt (a b : Str) (h : strLt a b = false) : strLe b a := h
+
+theorem strLe_trans (a b c : Str) (h1 : strLe a b) (h2 : strLe b c) : strLe a c := by
+  unfold strLe at *
+  cases hca : strLt c a with
+  | false => rfl
+  | true =>
+    rcases strLt_total b a with h | h | h
+    · rw [h] at h1; cases h1
+    · subst h; rw [hca] at h2; cases h2
+    · have := strLt_trans _ _ _ hca (by
+        rcases strLt_total a b with h' | h' | h'
+        · exact h'
+        · subst h'; rw [strLt_irrefl] at h; cases h
+        · rw [h'] at h1; cases h1)
+      rw [this] at h2; cases h2
+
+theorem insertSorted_perm (x : Str) (l : List Str) : (insertSorted x l).Perm (x :: l) := by
+  induction l with
+  | nil => exact List.Perm.refl _
+  | cons y ys ih =>
+    simp only [insertSorted]
+    split
+    · exact List.Perm.refl _
+    · exact (List.Perm.cons y ih).trans (List.Perm.swap x y ys)
+
+theorem insertSorted_sorted (x : Str) (l : List Str) (h : l.Pairwise strLe) : (insertSorted x l).Pairwise strLe := by
+  induction l with
+  | nil => simp [insertSorted]
+  | cons y ys ih =>
+    rw [List.pairwise_cons] at h
+    simp only [insertSorted]
+    split
+    · rename_i hlt
+      rw [List.pairwise_cons]
+      refine ⟨?_, List.pairwise_cons.mpr h⟩
+      intro z hz
+      have hxy : strLe x y := strLt_asymm _ _ hlt
+      rcases List.mem_cons.mp hz with rfl | hz
+      · exact hxy
+      · exact strLe_trans _ _ _ hxy (h.1 z hz)
+    · rename_i hnlt
+      have hyx : strLe y x := by
+        have : strLt x y = false := by simpa using hnlt
+        exact this
+      rw [List.pairwise_cons]
+      refine ⟨?_, ih h.2⟩
+      intro z hz
+      have := (insertSorted_perm x ys).mem_iff.mp hz
+      rcases List.mem_cons.mp this with rfl | hz'
+      · exact hyx
+      · exact h.1 z hz'
+
+/-- the directory listing is in byte-wise order and contains exactly the entries -/
+theorem sortNames_sorted (l : List Str) : (sortNames l).Pairwise strLe := by
+  induction l with
+  | nil => simp [sortNames]
+  | cons x xs ih => exact insertSorted_sorted x _ ih
+
+theorem sortNames_perm (l : List Str) : (sortNames l).Perm l := by
+  induction l with
+  | nil => exact List.Perm.refl _
+  | cons x xs ih => exact (insertSorted_perm x _).trans (List.Perm.cons x ih)
+
+
 end Econf
